@@ -34,6 +34,8 @@ def run_shard(job):
     spill = job[6] if len(job) > 6 else None
     t0 = time.time()
     out = dict(idx=idx, params=params, error=None)
+    if params.get("concrete"):
+        return run_concrete_shard(pid, idx, params, t0)
     try:
         from symex import core, install
 
@@ -150,6 +152,28 @@ def run_all(jobs, njobs, shard_timeout):
 
     shutil.rmtree(spilldir, ignore_errors=True)
     return results
+
+
+def run_concrete_shard(pid, idx, params, t0):
+    """a purely concrete shard (finite enumeration, no symbolic input) runs on the unmodified code with the REAL numpy under /venv"""
+    env = dict(os.environ, VERIF_REPO=REPO, PYTHONDONTWRITEBYTECODE="1", PYTHONHASHSEED="0")
+    r = subprocess.run([VENV_PY, os.path.join(ROOT, "replay", "run.py"), "--enumerate", pid, json.dumps(params)], capture_output=True, text=True, env=env)
+    line = [ln for ln in r.stdout.splitlines() if ln.startswith("ENUM-RESULT ")]
+    out = dict(idx=idx, params=params, error=None, wall=time.time() - t0)
+    if r.returncode != 0 or not line:
+        out["error"] = "concrete shard failed: " + (r.stdout + r.stderr)[-1500:]
+        return out
+    res = json.loads(line[0][len("ENUM-RESULT "):])
+    lc = {}
+    viol = []
+    for f in res["failed"]:
+        lc[f["label"]] = lc.get(f["label"], 0) + 1
+        if lc[f["label"]] <= 2:
+            viol.append(dict(label=f["label"], info=f["info"], witness=dict(choices=f["choices"], values={}, mode="concrete")))
+    st = dict(paths=res["paths"], ok=res["paths"], obligations=res["paths"], discharged=res["paths"] - len(res["failed"]), violated=len(res["failed"]),
+              concrete_paths=res["paths"])
+    out.update(stats=st, violations=viol, unknowns=[], samples=[], reached=res["reached"], funcs=[], incomplete=False, known_seen={}, label_counts=lc)
+    return out
 
 
 def replay_file(path):
@@ -313,6 +337,7 @@ def main(argv=None):
             solver=dict(name="z3 " + _z3ver(), queries=int(agg.get("solver_calls", 0)), seconds=round(agg.get("solver_s", 0.0), 2),
                         branches=int(agg.get("branches", 0)), forks=int(agg.get("forks", 0))),
             shards=len(shards), shards_incomplete=incomplete,
+            concrete_enumeration_paths_on_real_numpy=int(agg.get("concrete_paths", 0)),
             functions_encoded=sorted(funcs),
             bounds=H.BOUNDS[args.tier] if hasattr(H, "BOUNDS") else "",
             outside_claim=getattr(H, "OUTSIDE", ""),
